@@ -40,62 +40,62 @@ Fixpoint cert_plain (b : bool) (ops : list pr_op) : bool :=
   end.
 
 (** a fresh object: loaded with [fl], and built when [b] *)
-Definition fresh (V : list N) (E : list edge) (fl : list Z) (b : bool) : pr_state :=
+Definition fresh (cf : pr_config) (V : list N) (E : list edge) (fl : list Z) (b : bool) : pr_state :=
   if b then do_build V E (pr_loaded fl) else pr_loaded fl.
 
 (** the certificate field is empty or holds a sequence found by a search on the net of the loaded flow *)
-Definition cert_of_flow (V : list N) (E : list edge) (fl : list Z) (c : option (list N)) : Prop :=
+Definition cert_of_flow (cf : pr_config) (V : list N) (E : list edge) (fl : list Z) (c : option (list N)) : Prop :=
   forall s, c = Some s ->
   exists ms md, bo_verdict (is_realizable (build_petri_net_from_flow V E fl) ms md) = Found s.
 
 (** state = fresh object up to the certificate field *)
-Definition like_fresh (V : list N) (E : list edge) (fl : list Z) (b cp : bool) (st : pr_state) : Prop :=
-  pr_flow st = fl /\ pr_built st = pr_built (fresh V E fl b) /\ (cp = true -> cert_of_flow V E fl (pr_cert st)) /\
+Definition like_fresh (cf : pr_config) (V : list N) (E : list edge) (fl : list Z) (b cp : bool) (st : pr_state) : Prop :=
+  pr_flow st = fl /\ pr_built st = pr_built (fresh cf V E fl b) /\ (cp = true -> cert_of_flow cf V E fl (pr_cert st)) /\
   (cp = false -> b = true).        (* a borrow leaves a built object behind; only a reload un-builds, and it clears the field *)
 
 (** ** The scaled search leaves exactly the fresh built state, whatever state it starts from *)
 
-Lemma scaled_loop_state V E saved n : forall st k,
-  fst (scaled_loop V E saved st k n) = fresh V E saved true.
+Lemma scaled_loop_state cf V E saved n : forall st k,
+  fst (scaled_loop cf V E saved st k n) = fresh cf V E saved true.
 Proof.
   induction n as [|n IH]; intros st k; simpl.
   - reflexivity.
   - unfold do_real, do_build, set_flow; simpl.
-    destruct (bo_verdict (is_realizable _ DEFAULT_MAX_STATES DEFAULT_MAX_DEPTH)); simpl; try apply IH.
+    destruct (bo_verdict (is_realizable _ (cfg_states cf) (cfg_depth cf))); simpl; try apply IH.
     reflexivity.
 Qed.
 
 (** … and its answer does not depend on the state it starts from *)
-Lemma scaled_loop_ans V E saved n : forall st st' k,
-  snd (scaled_loop V E saved st k n) = snd (scaled_loop V E saved st' k n).
+Lemma scaled_loop_ans cf V E saved n : forall st st' k,
+  snd (scaled_loop cf V E saved st k n) = snd (scaled_loop cf V E saved st' k n).
 Proof.
   induction n as [|n IH]; intros st st' k; simpl.
   - reflexivity.
   - unfold do_real, do_build, set_flow; simpl.
-    destruct (bo_verdict (is_realizable _ DEFAULT_MAX_STATES DEFAULT_MAX_DEPTH)); simpl; try apply IH.
+    destruct (bo_verdict (is_realizable _ (cfg_states cf) (cfg_depth cf))); simpl; try apply IH.
     reflexivity.
 Qed.
 
 (** ** The borrow search: flow untouched, net rebuilt from the flow, the SAVED markings put back *)
 
-Lemma do_build_flow V E st st' : pr_flow st = pr_flow st' -> do_build V E st = do_build V E st'.
+Lemma do_build_flow (cf : pr_config) V E st st' : pr_flow st = pr_flow st' -> do_build V E st = do_build V E st'.
 Proof. intros H. unfold do_build. now rewrite H. Qed.
 
-Lemma borrow_loop_state V E species M0s MTs combs : forall st,
+Lemma borrow_loop_state cf V E species M0s MTs combs : forall st,
   pr_built st = Some (Built (b_net (build_petri_net_from_flow V E (pr_flow st))) M0s MTs) ->
-  let r := fst (borrow_loop V E species M0s MTs st combs) in
+  let r := fst (borrow_loop cf V E species M0s MTs st combs) in
   pr_flow r = pr_flow st /\
   pr_built r = Some (Built (b_net (build_petri_net_from_flow V E (pr_flow st))) M0s MTs).
 Proof.
   induction combs as [|comb combs IH]; intros st Hb; simpl.
   - split; [reflexivity|exact Hb].
-  - destruct (bo_verdict (is_realizable _ DEFAULT_MAX_STATES DEFAULT_MAX_DEPTH)); simpl;
+  - destruct (bo_verdict (is_realizable _ (cfg_states cf) (cfg_depth cf))); simpl;
       try (split; reflexivity); apply (IH (PR _ _ _)); reflexivity.
 Qed.
 
-Lemma borrow_loop_ans V E species M0s MTs combs st st' :
+Lemma borrow_loop_ans cf V E species M0s MTs combs st st' :
   pr_flow st = pr_flow st' ->
-  snd (borrow_loop V E species M0s MTs st combs) = snd (borrow_loop V E species M0s MTs st' combs).
+  snd (borrow_loop cf V E species M0s MTs st combs) = snd (borrow_loop cf V E species M0s MTs st' combs).
 Proof.
   intros H. destruct combs as [|comb combs]; simpl; [reflexivity|]. rewrite H. reflexivity.
 Qed.
@@ -109,12 +109,12 @@ Definition flow_after (fl : list Z) (op : pr_op) : list Z := last_flow fl [op].
 Definition built_after1 (b : bool) (op : pr_op) : bool := built_after b [op].
 Definition cert_plain1 (b : bool) (op : pr_op) : bool := cert_plain b [op].
 
-Lemma no_cert_of_flow V E fl : cert_of_flow V E fl None.
+Lemma no_cert_of_flow cf V E fl : cert_of_flow cf V E fl None.
 Proof. intros s Hs. discriminate. Qed.
 
-Lemma step_like_fresh V E fl b cp st op :
-  like_fresh V E fl b cp st ->
-  like_fresh V E (flow_after fl op) (built_after1 b op) (cert_plain1 cp op) (fst (pr_step V E st op)).
+Lemma step_like_fresh cf V E fl b cp st op :
+  like_fresh cf V E fl b cp st ->
+  like_fresh cf V E (flow_after fl op) (built_after1 b op) (cert_plain1 cp op) (fst (pr_step cf V E st op)).
 Proof.
   intros (Hf & Hb & Hc & Hcb). unfold like_fresh, flow_after, built_after1, cert_plain1.
   destruct op as [ms md|k| | |f|mb]; simpl.
@@ -141,44 +141,44 @@ Proof.
       - exists st. split; [reflexivity|split; [exact Hf|]]. rewrite Eb. destruct b; simpl in Hb; [exact Hb|discriminate].
       - exists (do_build V E st). split; [reflexivity|]. unfold do_build. simpl. now rewrite Hf. }
     destruct E0 as (st0 & -> & Hf0 & Hb0). rewrite Hb0.
-    pose proof (borrow_loop_state V E (sorted_vertices V) (b_M0 (build_petri_net_from_flow V E fl))
+    pose proof (borrow_loop_state cf V E (sorted_vertices V) (b_M0 (build_petri_net_from_flow V E fl))
                   (b_MT (build_petri_net_from_flow V E fl))
                   (borrow_vectors mb (length (sorted_vertices V))) st0) as H.
     rewrite Hf0 in H. rewrite built_eta in H. specialize (H Hb0). destruct H as [H1 H2].
     split; [exact H1|split; [exact H2|split; [discriminate|reflexivity]]].
 Qed.
 
-Lemma exec_like_fresh V E ops : forall fl b cp st,
-  like_fresh V E fl b cp st ->
-  like_fresh V E (last_flow fl ops) (built_after b ops) (cert_plain cp ops) (pr_exec V E st ops).
+Lemma exec_like_fresh cf V E ops : forall fl b cp st,
+  like_fresh cf V E fl b cp st ->
+  like_fresh cf V E (last_flow fl ops) (built_after b ops) (cert_plain cp ops) (pr_exec cf V E st ops).
 Proof.
   induction ops as [|op ops IH]; intros fl b cp st H; simpl.
   - exact H.
-  - unfold pr_exec. simpl. fold (pr_exec V E (fst (pr_step V E st op)) ops).
-    pose proof (step_like_fresh V E fl b cp st op H) as H1.
+  - unfold pr_exec. simpl. fold (pr_exec cf V E (fst (pr_step cf V E st op)) ops).
+    pose proof (step_like_fresh cf V E fl b cp st op H) as H1.
     specialize (IH _ _ _ _ H1).
     unfold flow_after, built_after1, cert_plain1 in IH.
     destruct op; simpl in *; exact IH.
 Qed.
 
-Lemma loaded_like_fresh V E fl : like_fresh V E fl false true (pr_loaded fl).
+Lemma loaded_like_fresh cf V E fl : like_fresh cf V E fl false true (pr_loaded fl).
 Proof. split; [reflexivity|split; [reflexivity|split; [intros _; apply no_cert_of_flow|discriminate]]]. Qed.
 
 (** ** The answers *)
 
 (** the answer of a call is a function of the built net (is_realizable), of the flow alone (scaled and borrow
     search), of the certificate field (certificate) — never of anything else in the state *)
-Lemma answer_like_fresh V E fl b cp st op :
-  like_fresh V E fl b cp st ->
-  snd (pr_step V E st op) =
+Lemma answer_like_fresh cf V E fl b cp st op :
+  like_fresh cf V E fl b cp st ->
+  snd (pr_step cf V E st op) =
   match op with
   | OpCert => ACert (pr_cert st)
-  | _ => snd (pr_step V E (fresh V E fl b) op)
+  | _ => snd (pr_step cf V E (fresh cf V E fl b) op)
   end.
 Proof.
   intros (Hf & Hb & Hc & _). destruct op as [ms md|k| | |f|mb]; simpl.
-  - unfold do_real. rewrite Hb. destruct (pr_built (fresh V E fl b)); reflexivity.
-  - rewrite Hf. replace (pr_flow (fresh V E fl b)) with fl by (destruct b; reflexivity).
+  - unfold do_real. rewrite Hb. destruct (pr_built (fresh cf V E fl b)); reflexivity.
+  - rewrite Hf. replace (pr_flow (fresh cf V E fl b)) with fl by (destruct b; reflexivity).
     apply scaled_loop_ans.
   - reflexivity.
   - reflexivity.
@@ -190,35 +190,35 @@ Qed.
 
 (** ** Connecting [pr_run] (what the correspondence evaluates) with [pr_exec] / [pr_step] *)
 
-Lemma pr_run_app V E ops1 : forall st ops2,
-  pr_run V E st (ops1 ++ ops2) = pr_run V E st ops1 ++ pr_run V E (pr_exec V E st ops1) ops2.
+Lemma pr_run_app cf V E ops1 : forall st ops2,
+  pr_run cf V E st (ops1 ++ ops2) = pr_run cf V E st ops1 ++ pr_run cf V E (pr_exec cf V E st ops1) ops2.
 Proof.
   induction ops1 as [|op ops1 IH]; intros st ops2; simpl.
   - reflexivity.
-  - change (pr_exec V E st (op :: ops1)) with (pr_exec V E (fst (pr_step V E st op)) ops1).
-    cbn [app pr_run]. destruct (pr_step V E st op) as [st' a]. cbn [fst app]. rewrite IH. reflexivity.
+  - change (pr_exec cf V E st (op :: ops1)) with (pr_exec cf V E (fst (pr_step cf V E st op)) ops1).
+    cbn [app pr_run]. destruct (pr_step cf V E st op) as [st' a]. cbn [fst app]. rewrite IH. reflexivity.
 Qed.
 
-Lemma pr_run_length V E ops : forall st, length (pr_run V E st ops) = length ops.
+Lemma pr_run_length cf V E ops : forall st, length (pr_run cf V E st ops) = length ops.
 Proof.
   induction ops as [|op ops IH]; intros st; simpl; [reflexivity|].
-  destruct (pr_step V E st op). simpl. now rewrite IH.
+  destruct (pr_step cf V E st op). simpl. now rewrite IH.
 Qed.
 
-Lemma pr_run_nth V E st ops1 op ops2 :
-  nth_error (pr_run V E st (ops1 ++ op :: ops2)) (length ops1) =
-  Some (snd (pr_step V E (pr_exec V E st ops1) op), fst (pr_step V E (pr_exec V E st ops1) op)).
+Lemma pr_run_nth cf V E st ops1 op ops2 :
+  nth_error (pr_run cf V E st (ops1 ++ op :: ops2)) (length ops1) =
+  Some (snd (pr_step cf V E (pr_exec cf V E st ops1) op), fst (pr_step cf V E (pr_exec cf V E st ops1) op)).
 Proof.
   rewrite pr_run_app. rewrite nth_error_app2 by (rewrite pr_run_length; lia).
   rewrite pr_run_length, Nat.sub_diag. simpl.
-  destruct (pr_step V E (pr_exec V E st ops1) op). reflexivity.
+  destruct (pr_step cf V E (pr_exec cf V E st ops1) op). reflexivity.
 Qed.
 
 (** ** Main statements *)
 
 Lemma main_history_state :
-  forall (V : list N) (E : list edge) (flow : list Z) (ops : list pr_op),
-  let st := pr_exec V E (pr_loaded flow) ops in
+  forall (cf : pr_config) (V : list N) (E : list edge) (flow : list Z) (ops : list pr_op),
+  let st := pr_exec cf V E (pr_loaded flow) ops in
   let fl := last_flow flow ops in
   pr_flow st = fl /\
   pr_built st = (if built_after false ops then Some (build_petri_net_from_flow V E fl) else None) /\
@@ -226,8 +226,8 @@ Lemma main_history_state :
      realizes E fl sq /\
      ((forall e, In e E -> NoDup (map fst (fst e))) -> Forall nonneg (markings_along E zero sq))).
 Proof.
-  intros V E flow ops st fl.
-  destruct (exec_like_fresh V E ops flow false true _ (loaded_like_fresh V E flow)) as (Hf & Hb & Hc & _).
+  intros cf V E flow ops st fl.
+  destruct (exec_like_fresh cf V E ops flow false true _ (loaded_like_fresh cf V E flow)) as (Hf & Hb & Hc & _).
   fold st fl in Hf, Hb, Hc. split; [exact Hf|split].
   - rewrite Hb. unfold fresh. destruct (built_after false ops); reflexivity.
   - intros sq Hp Hs. destruct (Hc Hp sq Hs) as (ms & md & Hv).
@@ -235,28 +235,28 @@ Proof.
 Qed.
 
 Lemma main_history_independence :
-  forall (V : list N) (E : list edge) (flow : list Z) (ops1 : list pr_op) (op : pr_op) (ops2 : list pr_op),
-  let st := pr_exec V E (pr_loaded flow) ops1 in
-  let fr := fresh V E (last_flow flow ops1) (built_after false ops1) in
-  nth_error (pr_run V E (pr_loaded flow) (ops1 ++ op :: ops2)) (length ops1) =
-    Some (snd (pr_step V E st op), fst (pr_step V E st op)) /\
-  snd (pr_step V E st op) =
+  forall (cf : pr_config) (V : list N) (E : list edge) (flow : list Z) (ops1 : list pr_op) (op : pr_op) (ops2 : list pr_op),
+  let st := pr_exec cf V E (pr_loaded flow) ops1 in
+  let fr := fresh cf V E (last_flow flow ops1) (built_after false ops1) in
+  nth_error (pr_run cf V E (pr_loaded flow) (ops1 ++ op :: ops2)) (length ops1) =
+    Some (snd (pr_step cf V E st op), fst (pr_step cf V E st op)) /\
+  snd (pr_step cf V E st op) =
     match op with
     | OpCert => ACert (pr_cert st)
-    | _ => snd (pr_step V E fr op)
+    | _ => snd (pr_step cf V E fr op)
     end /\
-  pr_flow (fst (pr_step V E st op)) = pr_flow (fst (pr_step V E fr op)) /\
-  pr_built (fst (pr_step V E st op)) = pr_built (fst (pr_step V E fr op)).
+  pr_flow (fst (pr_step cf V E st op)) = pr_flow (fst (pr_step cf V E fr op)) /\
+  pr_built (fst (pr_step cf V E st op)) = pr_built (fst (pr_step cf V E fr op)).
 Proof.
-  intros V E flow ops1 op ops2 st fr.
-  pose proof (exec_like_fresh V E ops1 flow false true _ (loaded_like_fresh V E flow)) as H. fold st in H.
-  split; [apply pr_run_nth|split; [exact (answer_like_fresh V E _ _ _ st op H)|]].
-  pose proof (step_like_fresh V E _ _ _ st op H) as (Hf1 & Hb1 & _).
-  assert (Hfr : like_fresh V E (last_flow flow ops1) (built_after false ops1) true fr).
+  intros cf V E flow ops1 op ops2 st fr.
+  pose proof (exec_like_fresh cf V E ops1 flow false true _ (loaded_like_fresh cf V E flow)) as H. fold st in H.
+  split; [apply pr_run_nth|split; [exact (answer_like_fresh cf V E _ _ _ st op H)|]].
+  pose proof (step_like_fresh cf V E _ _ _ st op H) as (Hf1 & Hb1 & _).
+  assert (Hfr : like_fresh cf V E (last_flow flow ops1) (built_after false ops1) true fr).
   { unfold fr, fresh. destruct (built_after false ops1); simpl.
     - split; [reflexivity|split; [reflexivity|split; [intros _; apply no_cert_of_flow|discriminate]]].
     - apply loaded_like_fresh. }
-  pose proof (step_like_fresh V E _ _ _ fr op Hfr) as (Hf2 & Hb2 & _).
+  pose proof (step_like_fresh cf V E _ _ _ fr op Hfr) as (Hf2 & Hb2 & _).
   split; congruence.
 Qed.
 
@@ -270,7 +270,7 @@ Definition ex_flow : list Z := [1%Z; 1%Z; 1%Z; 1%Z].
 Definition ex_ops : list pr_op :=
   [OpBuild; OpScaled 3; OpReal DEFAULT_MAX_STATES DEFAULT_MAX_DEPTH; OpCert;
    OpLoad [2%Z; 2%Z; 2%Z; 2%Z]; OpReal 1000 1000; OpBuild; OpReal 1000 1000; OpCert].
-Definition ex_answers : list pr_ans := map fst (pr_run ex_V ex_E (pr_loaded ex_flow) ex_ops).
+Definition ex_answers : list pr_ans := map fst (pr_run cfg_default ex_V ex_E (pr_loaded ex_flow) ex_ops).
 
 Example ex_history_answers :
   ex_answers =
@@ -279,7 +279,7 @@ Example ex_history_answers :
 Proof. vm_compute. reflexivity. Qed.
 
 Example ex_history_state_nonvacuous :
-  pr_cert (pr_exec ex_V ex_E (pr_loaded ex_flow) ex_ops) = Some [0;0;1;1;2;2;3;3]%N /\
+  pr_cert (pr_exec cfg_default ex_V ex_E (pr_loaded ex_flow) ex_ops) = Some [0;0;1;1;2;2;3;3]%N /\
   last_flow ex_flow ex_ops = [2%Z; 2%Z; 2%Z; 2%Z] /\ built_after false ex_ops = true.
 Proof. vm_compute. repeat split. Qed.
 
@@ -294,7 +294,7 @@ Definition exb_flow : list Z := [1%Z; 1%Z; 1%Z].
 Definition exb_ops : list pr_op :=
   [OpBuild; OpReal DEFAULT_MAX_STATES DEFAULT_MAX_DEPTH; OpBorrow 1; OpCert;
    OpReal DEFAULT_MAX_STATES DEFAULT_MAX_DEPTH; OpCert].
-Definition exb_answers : list pr_ans := map fst (pr_run exb_V exb_E (pr_loaded exb_flow) exb_ops).
+Definition exb_answers : list pr_ans := map fst (pr_run cfg_default exb_V exb_E (pr_loaded exb_flow) exb_ops).
 
 Example ex_borrow_history :
   exb_answers = [ADone; AReal NotFound; ABorrow (Some [0%Z; 1%Z]); ACert (Some [1%N; 0%N; 2%N]); AReal NotFound; ACert None] /\
